@@ -8,6 +8,8 @@
     pointer to the array, as a constant, with a named-constant length, as a structure member (Layout.tla: LenOf).
  d. `|:T|`: every structure with up to MaxMembers members over the member alphabet (Layout.tla: SizeOf),
     `|:[3]S|` = 3 * `|:S|`, and words of the computed size.
+ e. huge types: `|:T|` of arrays, nested arrays and structures around 2^29 .. 2^33 bytes (the size in bits passes 2^32),
+    expected sizes in Wide.tla limbs (MC_Layout: PickHuge).
 """
 import json
 import os
@@ -213,6 +215,46 @@ def size_programs(cases):
     return programs, expected, keys
 
 
+HUGE_LABELS = ["sizeof", "const-sizeof", "sizeof-array-of-3"]
+
+
+def huge_programs(cases):
+    """`|:T|` of types whose size in bits passes 2^32 (nothing is allocated: size-of is a compile-time constant);
+    the expected sizes are the 64-bit limb sequences MC_Layout computed with Wide.tla"""
+    programs, expected, keys = [], [], []
+    for start in range(0, len(cases), PACK):
+        chunk = cases[start:start + PACK]
+        decls, body, exp, ks = [], [], [], []
+        for k, c in enumerate(chunk):
+            n = mc.limbs_to_int(c["n"], "usize")
+            e = c["elem"]
+            if c["form"] == "array":
+                ty = "[%d]%s" % (n, e)
+            elif c["form"] == "nested":
+                ty = "[%d][2]%s" % (n, e)
+            else:
+                decls.append("struct HG%d\n{\na: [%d]%s,\nx: i32,\n}" % (k, n, e))
+                ty = "HG%d" % k
+            # the constant is declared before the structure it measures for even units, after it for odd ones
+            line = "const HK%d: usize = |:%s|;" % (k, ty)
+            if k % 2 == 0:
+                decls.insert(0, line)
+            else:
+                decls.append(line)
+            body.append('print!("#", %dusize, "\\n");' % k)
+            body.append('print!(|:%s|, "\\n");' % ty)
+            body.append('print!(HK%d, "\\n");' % k)
+            body.append('print!(|:[3]%s|, "\\n");' % ty)
+            size = mc.limbs_to_int(c["size"], "usize")
+            exp.append([str(size), str(size), str(mc.limbs_to_int(c["size3"], "usize"))])
+            ks.append("huge 2^%d%+d %s %s" % (c["total"], c["delta"] - 2, c["form"], e))
+        src = "\n".join(decls) + "\nfn main() -> u8\n{\n" + "\n".join(body) + "\nreturn: 0u8\n}\n"
+        programs.append({"src": src})
+        expected.append(exp)
+        keys.append(ks)
+    return programs, expected, keys
+
+
 def run_sources(programs, tag):
     inp = os.path.join(common.WORK, "%s-%d-src.ndjson" % (tag, os.getpid()))
     out = os.path.join(common.WORK, "%s-%d-res.ndjson" % (tag, os.getpid()))
@@ -253,6 +295,8 @@ def compare(rep, kind, programs, results, expected, keys, labels):
             got = units.get(k)
             checked += 1
             ok = got is not None and len(got) == len(want) and all(g in w.split("|") for g, w in zip(got, want))
+            if ok and kind == "huge":
+                ok = int(got[2]) == 3 * int(got[0])
             if ok and kind == "size":
                 # whichever alternative the compiler uses, `|:[3]T|` = 3 * `|:T|` (the property's own equation)
                 # (lines 2 and 3 are the two-type constants ZA, ZB)
@@ -278,7 +322,10 @@ def run(rep, tier, seed, selftest):
         raise common.ToolError("MC_Layout: invariant %s violated (the rule contradicts the property's own consequences)" % r.violated)
     lens = [c for c in r.cases if c["kind"] == "len"]
     sizes = [c for c in r.cases if c["kind"] == "struct"]
-    log("[tlc] MC_Layout: %d states, %d length cases, %d structures, %.1fs" % (r.distinct, len(lens), len(sizes), r.wall))
+    huges = sorted((c for c in r.cases if c["kind"] == "huge"), key=lambda c: (c["total"], c["delta"], c["form"], c["elem"]))
+    log("[tlc] MC_Layout: %d states, %d length cases, %d structures, %d huge types, %.1fs" % (r.distinct, len(lens), len(sizes), len(huges), r.wall))
+    if not huges:
+        raise common.ToolError("MC_Layout emitted no huge types")
     lprogs, lexp, lkeys = [], [], []
     for start in range(0, len(lens), PACK):
         p, e, k = len_program(lens[start:start + PACK])
@@ -290,7 +337,11 @@ def run(rep, tier, seed, selftest):
     sprogs, sexp, skeys = size_programs(sizes)
     sres = run_sources(sprogs, "C10-size")
     n3 = compare(rep, "size", sprogs, sres, sexp, skeys, SIZE_LABELS)
-    log("[replay] lengths: %d cases, %d comparisons; sizes: %d structures, %d comparisons" % (len(lens), n2, len(sizes), n3))
+    hprogs, hexp, hkeys = huge_programs(huges)
+    hres = run_sources(hprogs, "C10-huge")
+    n4 = compare(rep, "huge", hprogs, hres, hexp, hkeys, HUGE_LABELS)
+    log("[replay] lengths: %d cases, %d comparisons; sizes: %d structures, %d comparisons; huge types: %d, %d comparisons" %
+        (len(lens), n2, len(sizes), n3, len(huges), n4))
     selftests = {}
     if selftest or tier == "thorough":
         probe = common.Report("C10", tier, seed)
@@ -311,7 +362,7 @@ def run(rep, tier, seed, selftest):
     coverage = {
         "states": st["states"] + r.distinct,
         "transitions": st["transitions"] + r.generated,
-        "traces_validated_against_impl": len(live) + len(lens) + len(sizes),
+        "traces_validated_against_impl": len(live) + len(lens) + len(sizes) + len(huges),
         "samples": [{"cell": c} for c in rs.sample(live, 3)] + [{"length": c} for c in rs.sample(lens, 2)] +
                    [{"structure": c} for c in rs.sample(sizes, 2)] + [{"program_head": programs[0]["src"][:800]}],
         "evaluations": len(allcells) + len(lens) + len(sizes),
@@ -322,8 +373,8 @@ def run(rep, tier, seed, selftest):
                 "in reverse dependency order, and evaluated at run time from variables; all printed values must equal the "
                 "specification's. Non-trivial = cells with defined behaviour + all length and size cases.",
         "exhaustive": True,
-        "const_cells": len(allcells), "const_cells_defined": len(live), "length_cases": len(lens), "structures": len(sizes),
-        "comparisons": n1 + n2 + n3, "selftests": selftests,
+        "const_cells": len(allcells), "const_cells_defined": len(live), "length_cases": len(lens), "structures": len(sizes), "huge_types": len(huges),
+        "comparisons": n1 + n2 + n3 + n4, "selftests": selftests,
     }
     return rep.finish("model_checking", coverage, [
         "decimal text <-> limbs conversion in Python is trusted",
